@@ -332,6 +332,9 @@ package ecs
 //@   ensures r == !maskEmpty(m.locks)
 //@   ensures r == (exists! b uint8 :: specBit(m.locks, b))
 
+// lockSame: the lock state (mask and bit pool) equals the one at entry
+//@ pred lockSame(m *lockMask) bool = m.locks == old(m.locks) && m.bitPool.length == old(m.bitPool.length) && m.bitPool.available == old(m.bitPool.available) && m.bitPool.next == old(m.bitPool.next)
+
 //@ func lockMask.Reset(m)
 //@   flag use_expanded
 //@   props C09 C15
@@ -1628,9 +1631,12 @@ package ecs
 //@ func World.Query(w, filter) (q)
 //@   props C09 C03
 //@   requires lockInv(&w.locks) && filter != nil
-//@   requires is(filter, *CachedFilter) ==> as(filter, *CachedFilter) != nil && w.filterCache.indices != nil && mapHas(w.filterCache.indices, as(filter, *CachedFilter).id)
+//@   requires is(filter, *CachedFilter) ==> as(filter, *CachedFilter) != nil && w.filterCache.indices != nil
 //@   requires forall id uint32 :: {mapHas(w.filterCache.indices, id)} mapHas(w.filterCache.indices, id) ==> 0 <= w.filterCache.indices[id] && w.filterCache.indices[id] < len(w.filterCache.filters)
 //@   panics_if w.locks.bitPool.available == 0 && int(w.locks.bitPool.length) >= MaskTotalBits
+// a cached filter that is not (or no longer) registered is refused - and a refused call opens no query: the lock state at the panic is the one at entry
+//@   panics_if is(filter, *CachedFilter) && !mapHas(w.filterCache.indices, as(filter, *CachedFilter).id)
+//@   on_panic lockSame(&w.locks)
 //@   modifies w.locks.locks.bits, *(&w.locks.bitPool)
 //@   ensures q.world == w && lockInv(&w.locks) && specBit(w.locks.locks, q.lockBit) && !old(specBit(w.locks.locks, q.lockBit)) && validID(q.lockBit)
 //@   ensures forall! b uint8 :: b != q.lockBit ==> specBit(w.locks.locks, b) == old(specBit(w.locks.locks, b))
